@@ -446,6 +446,25 @@ def opAttrSet (c : Ctx) (slat : Nat) (subindex : Nat) (value : Int) : Outcome :=
       | 21 => set fun sl => { sl with shiftY := value }
       | _ => .cont c
 
+/-- `Slot::getAttr(seg, slat, 0)` of the current slot for the positioning attributes this model carries (what `attr_add` reads);
+0 for a null `is` (the `setAttr` that follows is then reported as a fault) and for the attributes the model does not carry -/
+def curAttr (c : Ctx) (slat : Nat) : Int :=
+  match c.is with
+  | none => 0
+  | some i =>
+    let sl := c.seg.get i
+    match slat with
+    | 0 => sl.advX
+    | 1 => sl.advY
+    | 2 => if sl.parent.isSome then 1 else 0
+    | 3 => sl.attX
+    | 4 => sl.attY
+    | 8 => sl.withX
+    | 9 => sl.withY
+    | 20 => sl.shiftX
+    | 21 => sl.shiftY
+    | _ => 0
+
 /-- `Silf::getClassGlyph(cid, index)` for linear classes -/
 def classGlyph (c : Ctx) (cid index : Nat) : Nat :=
   match c.classes[cid]? with
